@@ -127,6 +127,8 @@ func c12Birth(w *W, d *Day, t hms, ti int) {
 	birth := d.At(t.h, t.m, t.s)
 	l := birth.GetLunar()
 	ec := l.GetEightChar()
+	// the chart's day-boundary convention rotates; fortune direction, start offset and periods do not depend on it
+	ec.SetSect(1 + (d.J+ti)%2)
 	where := birth.ToYmdHms()
 	yang := l.GetYearGanIndexExact()%2 == 0
 	monthIdx := gzIndex(l.GetMonthGanIndexExact(), l.GetMonthZhiIndexExact())
